@@ -37,15 +37,22 @@ LEVEL_NOTE = ("Trusted: Coq kernel, extraction (ExtrOcamlBasic), the Go harnesse
               "(e.g. selectNewLeader panics on an empty response map, reachable only when removed nodes alone form the majority).")
 TRUSTED = ["modelled not verified: gRPC transport, Pebble flush (exercised through crash images of the data directory), rename(2)/fsync(2)",
            "response order into newTermQuorum's channel is forced through pprof goroutine labels (falls back to 8 ms spacing if labels disappear)",
+           "sfault cases: the process boundary is the crash model (a coordinator that panics/exits during a store outage is a crash event); "
+           "they carry no model trace (model line '*'), only the monitors term-issued-before-durable / term-reused-after-restart / "
+           "two-leaders-same-term / shard-term-regressed on the RPC and Store log of both processes",
            "ConfigChanged is parked inside ApplyClusterChanges through the slog.Error report of an unplaceable namespace (harness slog handler); "
            "if that report disappears the cfgrace cases are not evaluated (counted), never an alarm"]
 ASSUMES = ["store_atomic: the metadata provider's Store is all-or-nothing (memory, configmap; file provider after the O-11 fix)",
-           "store_succeeds_before_continue; namespace of the shard present in the cluster status",
+           "store_persists (formerly store_succeeds_before_continue, now the explicit trace hypothesis ~In ACoordStoreGiveUp): the controller "
+           "does not carry on before its Store succeeded; failed attempts that are retried (ACoordStoreFail) and crashes during the outage "
+           "are inside the proved traces; exercised on the real code by the sfault cases; namespace of the shard present in the cluster status",
            "NoDup(ensemble ++ removed) initially and well-formed swaps (wf_run), for the majority/max-head theorem"]
 RULE = ("sel: response maps of 0..7 servers with ties, stale-term-longer-log, empty logs; distinct by content, non-trivial = >=2 responses; "
         "elect: scripts (provider, ensemble 3-5, removed 0-2, heads, per-round arrival order with ok/err and timer position, BecomeLeader outcome, "
         "refence outcomes, 1-3 incarnations with kill points s1pre/s1post/nt0-3/blpre/blpost/s2pre/s2post/end), distinct by script; "
-        "fstore: file Store interrupted after k bytes; cfgrace: real coordinator, ConfigChanged overlapping an election retry up to a pending "
+        "fstore: file Store interrupted after k bytes; sfault: coordinator in child processes on the real file provider behind a flaky wrapper "
+        "(Store calls j..j+k-1 fail, k in 1..6, or the first Gets fail) during an election / a node swap / ConfigChanged, optional kill at "
+        "BecomeLeader, then a new coordinator process on the same store with the installed leader unreachable; distinct by parameters; cfgrace: real coordinator, ConfigChanged overlapping an election retry up to a pending "
         "BecomeLeader (bl) or a completed election (full), kill, restart; distinct by (mode, initial term); node: request sequences (NewTerm/BecomeLeader/Truncate with lower/equal/higher terms, "
         "clean restarts, crash images), distinct by sequence")
 
@@ -66,7 +73,7 @@ def _decision(leader, fm, cands, res):
 
 
 def compare(impl, model):
-    if impl == model:
+    if impl == model or model == "*":                                       # "*": sfault cases are decided by the monitors only
         return True
     it, mt = impl.split(" "), model.split(" ")
     if len(it) == 2 and len(mt) == 2 and it[0] != "I0":                    # sel: "<leader> <followers>" vs "<cands> <responses>"
